@@ -168,9 +168,11 @@ def vpar_advect_ref(F, speed, dt, eta, c, edge):
         near = (np.abs(feet - vmin) < 1e-9 * width) | (np.abs(feet - vmax) < 1e-9 * width)
         safe[idx] = ~near
         if edge == 'periodic':
-            ft = feet.copy()
-            ft = vmin + np.mod(ft - vmin, width)
-            # the code maps onto [vmin, vmax]; vmin and vmax are identified
+            # feet are brought back into [vmin, vmax] by whole periods; a foot that
+            # lands within rounding distance of either end is a branch boundary
+            ft = np.where((feet >= vmin) & (feet <= vmax), feet, vmin + np.mod(feet - vmin, width))
+            near = (np.abs(ft - vmin) < 1e-9 * width) | (np.abs(ft - vmax) < 1e-9 * width)
+            safe[idx] = ~near
             vals = S(np.clip(ft, vmin, vmax))
         else:
             inside = (feet >= vmin) & (feet <= vmax)
